@@ -836,6 +836,11 @@ func (w *world) doOp(ctx context.Context, ts *taskState, op sim.Op, i int) {
 	cv.register(&o)
 	w.reuseBuffers(ts)
 	e.Logf("%s %s -> %s", ts.name, w.canon(op.String()), w.canon(o.String()))
+	if strings.HasPrefix(o.Err, "other:") && w.netFaults && w.mode == "wait" {
+		// only reads and dials are lost in this mode: a call that fails then has done nothing
+		e.Probe("call_failed_by_broken_connection")
+		return
+	}
 	if strings.HasPrefix(o.Err, "other:") && w.netFaults && w.mode == "conc" {
 		// a message of this run was lost and a connection broke: the storage passes the error on
 		e.Probe("call_failed_by_broken_connection")
@@ -1205,6 +1210,11 @@ func (w *world) doWait(ctx context.Context, ts *taskState, op sim.Op, i int, seq
 	ret := e.Stamp()
 	t1 := time.Now()
 	o := outcome{Err: classify(err)}
+	if o.Err == "ctx" && !ctxDoneAtReturn && w.netFaults && err != nil {
+		// an error that wraps a context error which is not the caller's (a dialer with its own
+		// time limit): a storage failure, not "the context's error"
+		o.Err = "other:" + err.Error()
+	}
 	e.Logf("%s wait %s ver=%s -> %s", ts.name, key, w.canonVer(ver), o.Err)
 	e.Probe("wait_returned_" + strings.SplitN(o.Err, ":", 2)[0])
 	if strings.HasPrefix(o.Err, "other:") && ctxDoneAtReturn {
@@ -1212,6 +1222,11 @@ func (w *world) doWait(ctx context.Context, ts *taskState, op sim.Op, i int, seq
 		// cancellation (e.g. an i/o timeout from a connection deadline) is the cancel outcome
 		e.Probe("wait_cancel_reported_as_transport_error")
 		o.Err = "ctx"
+	}
+	if strings.HasPrefix(o.Err, "other:") && w.netFaults {
+		// a poll was lost with its connection (and the next dial failed): the storage passes the error on
+		e.Probe("wait_failed_by_broken_connection")
+		return
 	}
 	if strings.HasPrefix(o.Err, "other:") && (w.srvErrDuring(ws.invAt, t1) || (len(w.srvErr) > 0 && strings.Contains(o.Err, "ERR injected"))) {
 		// a poll met a server that refused to work: the storage passes its error on
